@@ -457,6 +457,88 @@ func c19DirtyGating(r *verdict.Run, idx int, other bool) {
 	r.Distinct("dirty-gating/" + name)
 }
 
+// c19CloseWhileBusy: Close() while a command of another client is executing on the database (a transaction held between
+// two of its commands, so that it owns the data store when the final save wants it). The writes acknowledged since
+// the last periodic pass must be in the files whatever the saver finds the data store doing.
+func c19CloseWhileBusy(r *verdict.Run, idx int) {
+	p := newC19Env(r)
+	if p == nil {
+		return
+	}
+	defer p.cleanup()
+	c, e, cn, err := p.start()
+	if err != nil {
+		r.Inconclusive("infra: " + err.Error())
+		return
+	}
+	for _, cmd := range c19Base {
+		cn.Do(cmd...)
+	}
+	db := []string{"0", "0", "3", "3"}[idx%4]
+	cn.Do("SELECT", db)
+	cn.Do("SET", "marker", "old")
+	if !waitSaved(c) {
+		r.Inconclusive("no periodic save pass observed (saveall hooks)")
+		c.Stop()
+		return
+	}
+	// acknowledged after the pass
+	cn.Do("SET", "marker", "final")
+	cn.Do("RPUSH", "tail", "t1", "t2")
+	cn.Do("DEL", "s1")
+	cn.Do("SELECT", "0")
+	before, err := fullDump(cn)
+	if err != nil {
+		c.Stop()
+		return
+	}
+	// another client's transaction owns the database while Close() runs
+	w, err := newWaiter(e)
+	if err != nil {
+		c.Stop()
+		return
+	}
+	w.cn.Do("SELECT", db)
+	w.cn.Do("MULTI")
+	w.cn.Do("GET", "marker")
+	w.cn.Do("GET", "marker")
+	s := &c11Scn{r: r, c: c, e: e, aux: cn, name: "close-while-busy"}
+	tok, parked := s.parkAt(w, "exec:between-commands", []string{"EXEC"})
+	if !parked {
+		r.Inconclusive("hook point exec:between-commands not reached")
+		c.Stop()
+		return
+	}
+	done := make(chan error, 1)
+	go func() { _, err := c.CloseEmu(e.name, 20*time.Second); done <- err }()
+	time.Sleep(time.Duration(100+150*(idx%2)) * time.Millisecond)
+	s.release(tok)
+	if err := <-done; err != nil {
+		r.Report("persist/close-failed", "Close() did not return while a transaction was executing: "+err.Error(), nil)
+		c.Stop()
+		return
+	}
+	files := p.files()
+	w.cn.Close()
+	cn.Close()
+	c.Stop()
+	c2, _, cn2, err := p.start()
+	if err != nil {
+		r.Report("persist/restart-failed/"+errClass(err), fmt.Sprintf("after Close() during a transaction: the emulator could not be restarted (%s): %v", files, err), nil)
+		return
+	}
+	defer c2.Stop()
+	after, err := fullDump(cn2)
+	r.Eval(1)
+	if err != nil {
+		return
+	}
+	if d := dumpDiff(before, after); d != "" {
+		r.Report("persist/final-save-skipped-while-database-busy", fmt.Sprintf("writes were acknowledged in database %s after the last periodic pass, then Close() ran while another client's EXEC owned that database: after restart they are missing (%s):\n%s", db, files, d), map[string]any{"script": s.log})
+	}
+	r.Distinct("close-while-busy/db" + db)
+}
+
 // ---- 4. crash atomicity -------------------------------------------------------------------------------
 
 func c19Crash(r *verdict.Run, shard int, final bool) {
@@ -606,6 +688,7 @@ func checkC19(r *verdict.Run) {
 	}
 	parallel(len(sel), 16, func(i int) { c19DirtyGating(r, sel[i], false) })
 	parallel(3, 3, func(i int) { c19DirtyGating(r, i, true) })
+	parallel(4, 4, func(i int) { c19CloseWhileBusy(r, i) })
 	ncrash := tierPick(r, 8, 16) // 8 = every key count 1..8 once; the stages of each are enumerated completely
 	parallel(ncrash, 8, func(i int) { c19Crash(r, i+int(r.Seed)%8, i%4 == 3) })
 	nwe := tierPick(r, 6, 30)
